@@ -147,6 +147,8 @@ fixed("D25", ["C15"], "a block comment whose text ends in ')-' was never termina
       {"kind": "layout", "case": {"orig": "find all 'a' 'b'", "variant": "find all 'a' --( x )-)-- 'b'", "texts": ["ab"]}})
 fixed("D26", ["C15"], "whitespace (or a comment) after `find all` with an empty body was a parse error; reported by a seeding sub-agent", "find command with an empty body",
       {"kind": "layout", "case": {"orig": "find all", "variant": "find all\n", "texts": ["ab"]}})
+fixed("D27", ["C04"], "skip 1 take 9223372036854775807 returned nothing instead of A[1:]: skip+take overflowed in the scan loop bound; first noticed by a seeding sub-agent reading the code, confirmed by the C04 check once amounts up to the largest integer were generated", "skip s take t with a huge t returned nothing",
+      {"kind": "window", "case": {"prefix": "", "body": "'a'", "text": "aaa", "replace": False}})
 known("K1", ["C09", "C11"], "division / modulo by zero in process code panics (no documented result; needs a language decision)",
       "integer divide by zero", crash("set f to transform return 1 / 0 end replace all 'a' with f", "a"))
 known("K2", ["C09", "C12"], "a variable that is boolean on one branch and a number on the other reaches SHOULDN'T GET HERE (the checker keeps the last assigned type)",
